@@ -78,6 +78,10 @@ def parse_terse(text):
         if m:
             r["status"] = "success" if m.group(1) == "SUCCESSFUL" else "failed"
             r["reason"] = ""
+            if r["status"] == "failed" and not r["failed_checks"] and r.get("failed", 0) == 0:
+                # "FAILED" with "0 of N failed": every check came back `Status: ERROR` - CBMC ran out of memory or crashed
+                r["status"] = "inconclusive"
+                r["reason"] = "solver error / out of memory (no check decided)"
             continue
         m = RE_TIME.match(ln)
         if m:
